@@ -26,6 +26,9 @@ CHECKS["C02"] = dict(cat="other", tech="SMT (z3, QF_NRA) over the traced IR: rec
 CHECKS["C07"] = dict(cat="translation_validation", tech="symbolic execution of the traced integrate/step IR; equality of result DAGs decided structurally (hash-consing) with z3 fallback; numerically different pairs replayed on the real API",
    text="Each program pair (single call vs split/continued run vs manual init_fn/step_fn stepping vs every checkpoint layout) is traced with all table columns, initial states and stimulus samples symbolic; equality of recordings and returned states is decided for all values by DAG identity or z3. Steps, splits and layouts are enumerated (the bound).",
    note="exact real arithmetic; spsolve as an uninterpreted deterministic function; longer runs rest on the scan body being the same IR at every step", ref="6 C07")
+CHECKS["C06"] = dict(cat="translation_validation", tech="symbolic execution of the traced IR of jit / vmap / checkpointed / repeated simulate calls; DAG equality (structural, z3 fallback); concrete side-checks for table immutability",
+   text="Program pairs (jitted vs plain, each vmapped row vs the unbatched program on that row's symbols, every checkpoint layout vs plain, IR traced after repeated eager/jit/vmap/grad calls vs IR of a fresh module) are compared node by node for all symbolic trainables, data_set values and stimulus amplitudes. Table immutability and bit-identical repetition are concrete side-checks.",
+   note="XLA trusted to implement the IR; vmap with jax.sparse is refused by JAX itself (counted as refusal); exact real arithmetic", ref="6 C06")
 NA = {}
 checks = []
 for pid, c in CHECKS.items():
